@@ -873,12 +873,20 @@ def case_facts(interp, t):
                   'lower(upper(lower(s)))=lower(s), and the identity on the Excel error codes and "TRUE"/"FALSE" images')
     up, lo = uf('str_upper', S, S), uf('str_lower', S, S)
     ex = interp.ex
-    ex.assume(up(up(t)) == up(t))
-    ex.assume(lo(lo(t)) == lo(t))
-    ex.assume(lo(up(t)) == lo(t))
-    ex.assume(up(lo(t)) == up(t))
-    ex.assume((z3.Length(t) == 0) == (z3.Length(lo(t)) == 0))
-    ex.assume((z3.Length(t) == 0) == (z3.Length(up(t)) == 0))
+    ex.add_axiom(up(up(t)) == up(t))
+    ex.add_axiom(lo(lo(t)) == lo(t))
+    ex.add_axiom(lo(up(t)) == lo(t))
+    ex.add_axiom(up(lo(t)) == up(t))
+    ex.add_axiom((z3.Length(t) == 0) == (z3.Length(lo(t)) == 0))
+    ex.add_axiom((z3.Length(t) == 0) == (z3.Length(up(t)) == 0))
+    # single ASCII characters: exact mapping
+    chain_u, chain_l = t, t
+    for k in range(25, -1, -1):
+        a, A = chr(97 + k), chr(65 + k)
+        chain_u = z3.If(t == z3.StringVal(a), z3.StringVal(A), chain_u)
+        chain_l = z3.If(t == z3.StringVal(A), z3.StringVal(a), chain_l)
+    ascii1 = z3.InRe(t, z3.Range(' ', '~'))
+    ex.add_axiom(z3.Implies(ascii1, z3.And(up(t) == chain_u, lo(t) == chain_l)))
 
 
 def s_upper(interp, s, args, kwargs, node):
